@@ -40,8 +40,11 @@ func runC14(t *testing.T, cases []map[string]interface{}, ev *vEvents) {
 					user, pw = "alice", "pw-alice"
 				}
 				var r vResp
-				if k%2 == 0 {
+				if k%3 == 0 {
 					r = w.Do(vReq{Method: "POST", Path: "/api/v0/login", Form: url.Values{"username": {user}, "password": {pw}}})
+				} else if k%3 == 2 {
+					// the login endpoint also takes the credentials from an Authorization: Basic header
+					r = w.Do(vReq{Method: "POST", Path: "/api/v0/login", Basic: []string{user, pw}, Form: url.Values{}})
 				} else {
 					r = w.Do(vReq{Method: "POST", Path: "/certgen/" + user, Basic: []string{user, pw}, PubKey: vSSHPub(&vUserEC.PublicKey), BodyType: "multipart"})
 				}
@@ -57,10 +60,7 @@ func runC14(t *testing.T, cases []map[string]interface{}, ev *vEvents) {
 				st, _ := attempt(k)
 				te := ms()
 				called := atomic.LoadInt64(&w.pw.calls) > before
-				entry := "form"
-				if k%2 == 1 {
-					entry = "basic"
-				}
+				entry := []string{"form", "basic", "basic_login"}[k%3]
 				emit(map[string]interface{}{"ev": "Attempt", "trace": ci, "phase": "seq", "entry": entry, "tStart": ts, "tEnd": te, "status": st, "called": called})
 			}
 			// concurrent: totals only (per-attempt attribution of backend calls is impossible)
@@ -123,6 +123,54 @@ func runC14(t *testing.T, cases []map[string]interface{}, ev *vEvents) {
 					vMust(w.st.SaveUserProfile("alice", p))
 				}
 				emit(map[string]interface{}{"ev": "Otp", "trace": ci, "right": right, "accepted": accepted, "status": r.Status})
+			}
+			w.Close()
+		case "otp_parallel":
+			// the same moment: N requests carrying the current code of one user (storage reads slowed down so that the
+			// requests overlap inside the handler); at most one of them may be evaluated, hence at most one accepted
+			w := newWorld(vWorldOpts{CertCfg: []string{"password"}, WebUICfg: []string{"password"}})
+			w.st.Config.Base.EnableLocalTOTP = true
+			prim, _ := w.regate()
+			emit(map[string]interface{}{"ev": "Reset", "trace": ci})
+			for u := 0; u < vInt(c, "users"); u++ {
+				user := fmt.Sprintf("puser%d", u)
+				prim.mu.Lock()
+				prim.delayQ = 0
+				prim.mu.Unlock()
+				w.armTOTP(user)
+				ck := map[string]string{authCookieName: w.mintCookie(user, AuthTypePassword, 0)}
+				code, _ := totp.GenerateCode(vTOTPSecret, time.Now())
+				right := vBool(c, "right")
+				if !right {
+					code = fmt.Sprintf("%06d", (vAtoi(code)+1)%1000000)
+				}
+				prim.mu.Lock()
+				prim.delayQ = time.Duration(vInt(c, "delayMs")) * time.Millisecond
+				prim.mu.Unlock()
+				n := vInt(c, "n")
+				var acc, panics int64
+				var wg sync.WaitGroup
+				start := make(chan struct{})
+				for g := 0; g < n; g++ {
+					wg.Add(1)
+					go func() {
+						defer wg.Done()
+						<-start
+						r := w.Do(vReq{Method: "POST", Path: totpAuthPath, Cookies: ck, Form: url.Values{"OTP": {code}}})
+						if r.Status == 200 {
+							atomic.AddInt64(&acc, 1)
+						}
+						if r.Panic != "" {
+							atomic.AddInt64(&panics, 1)
+						}
+					}()
+				}
+				close(start)
+				wg.Wait()
+				w.st.totpLocalTateLimitMutex.Lock()
+				fc := w.st.totpLocalRateLimit[user].failCount
+				w.st.totpLocalTateLimitMutex.Unlock()
+				emit(map[string]interface{}{"ev": "OtpParallel", "trace": ci, "right": right, "n": n, "accepted": int(acc), "failCount": int(fc), "panic": panics > 0})
 			}
 			w.Close()
 		}
